@@ -47,7 +47,7 @@ VH_GROUP(seeds)
             std::vector<unsigned char> bytes = c13::gil_written<Img, gil::jpeg_tag>(sz[0], sz[1], gil::image_write_info<gil::jpeg_tag>(100));
             ioc::ScratchFile file("c13-" + nm, "jpg", bytes);
             SeedView sv; sv.name = nm; sv.bytes = &bytes; sv.path = file.path;
-            sv.subrects = allrect || (sz[0] <= 5 && sz[1] <= 4);
+            sv.subrects = (allrect && sz[0] * sz[1] <= 20) || (sz[0] <= 5 && sz[1] <= 4);
             ++ctx.witness["jpeg_gil_written_seeds"];
             run_typed<Img>(ctx, sv, o);
             if (ctx.timed_out()) return;
